@@ -60,6 +60,7 @@ def obligations(ctx):
     ob.finish(E, nat)
     struct_forms(ctx)
     output_forms(ctx)
+    param_update_keys(ctx)
 
 
 # ---------------------------------------------------------------- struct-level forms against a table written from the Conway CDDL
@@ -279,3 +280,80 @@ def output_forms(ctx):
     if seen != want:
         ob.fail("expected the six datum x script-reference combinations, saw %s" % sorted(map(str, seen)))
     ob.finish(E)
+
+
+# ---------------------------------------------------------------- protocol parameter update: key numbers of the ledger CDDL
+PPU_KEYS = {"minfee_a": 0, "minfee_b": 1, "max_block_body_size": 2, "max_tx_size": 3, "max_block_header_size": 4, "key_deposit": 5, "pool_deposit": 6, "max_epoch": 7, "n_opt": 8,
+            "pool_pledge_influence": 9, "expansion_rate": 10, "treasury_growth_rate": 11,
+            "d": 12, "extra_entropy": 13, "protocol_version": 14,             # pre-Conway keys the library still reads and writes
+            "min_pool_cost": 16, "ada_per_utxo_byte": 17, "cost_models": 18, "execution_costs": 19, "max_tx_ex_units": 20, "max_block_ex_units": 21, "max_value_size": 22,
+            "collateral_percentage": 23, "max_collateral_inputs": 24, "pool_voting_thresholds": 25, "drep_voting_thresholds": 26, "min_committee_size": 27, "committee_term_limit": 28,
+            "governance_action_validity_period": 29, "governance_action_deposit": 30, "drep_deposit": 31, "drep_inactivity_period": 32, "ref_script_coins_per_byte": 33}
+
+
+def param_update_keys(ctx):
+    """protocol_param_update = { ? 0 : coin, ? 1 : coin, ..., ? 33 : nonnegative_interval }: each field alone, adjacent pairs and
+    all together — the map declares exactly the entries written and every present field sits under the key the CDDL gives it
+    (a key swapped in encoder AND decoder survives every round trip; this table does not come from the library)."""
+    P = ctx.P
+    ty = "ProtocolParamUpdate"
+    ob = Obligation(ctx, "c03_e2_param_update_keys_vs_cddl", "each of the 34 optional fields alone, adjacent pairs, all present, none; scalar fields symbolic, structured fields opaque items",
+                    ["<ProtocolParamUpdate as Serialize>::serialize"], fallback_native="e2n_c03_struct_forms")
+    names, ftys = P.struct_fields.get(ty), getattr(P, "struct_field_types", {}).get(ty)
+    agg = Engine(P)
+    if not names or set(names) != set(PPU_KEYS):
+        ob.fail("ProtocolParamUpdate's fields differ from the table: only in the struct %s, only in the table %s" % (sorted(set(names or []) - set(PPU_KEYS)), sorted(set(PPU_KEYS) - set(names or []))))
+        ob.finish(agg); return
+    some = ENUM_STD["Option"].index("Some")
+    idx = list(range(len(names)))
+    combos = [frozenset(), frozenset(idx)] + [frozenset([i]) for i in idx] + [frozenset(c) for c in zip(idx, idx[1:])]
+    ncombo = 0
+    for combo in combos:
+        E = Engine(P, max_loop=80)
+        CM.install(E, target=ty)
+        E.base = [z3.Int("v.%d#d" % i) == (some if i in combo else 1 - some) for i in idx]
+        try:
+            outs = [o for o in E.explore("<%s as cbor_event::se::Serialize>::serialize" % ty, lambda: [VRef(Cell(VLazy("v", ty), "self")), VRef(Cell(CM.VSer(), "ser"))], max_paths=40) if o.kind != "bound"]
+        except (Unsupported, PathAbort) as e:
+            ob.fail("serializer cannot be executed with fields %s present (%s)" % (sorted(combo), str(e)[:100])); continue
+        agg.stats["paths"] += E.stats["paths"]; agg.stats["feasibility_queries"] += E.stats["feasibility_queries"]; agg.stats["functions"] |= E.stats["functions"]
+        if len(outs) != 1 or outs[0].kind != "return" or outs[0].value.variant != "Ok":
+            ob.violation("fields %s present: the serializer does not return Ok on exactly one path (%s)" % ([names[i] for i in sorted(combo)], [(o.kind, o.msg[:40]) for o in outs][:3])); continue
+        ncombo += 1
+        o = outs[0]
+        E.enter(o)
+        toks = list(VM.deref(E, o.args[1]).tokens)
+        what = "fields [%s] present" % ", ".join(names[i] for i in sorted(combo))
+        if not toks or toks[0][0] != "map" or toks[0][1] != len(combo):
+            ob.violation("%s: the map declares %s entries, %d fields are present" % (what, toks[0][1] if toks else None, len(combo))); continue
+        ents = CM.map_entries(toks, 0)
+        if ents is None or len(ents) != len(combo):
+            ob.violation("%s: the emitted tokens are not a well-formed map of %d entries" % (what, len(combo))); continue
+        keys = []
+        for k, vs, ve in ents:
+            kv = z3.simplify(k[1]) if k[0] == "uint" and z3.is_expr(k[1]) else (k[1] if k[0] == "uint" else None)
+            keys.append(kv.as_long() if z3.is_expr(kv) and z3.is_int_value(kv) else kv)
+        want = sorted(PPU_KEYS[names[i]] for i in combo)
+        if sorted(k for k in keys if isinstance(k, int)) != want or len(keys) != len(want):
+            ob.violation("%s: keys written %s, the CDDL keys of these fields are %s" % (what, keys, want)); continue
+        # the value under each key is the field the CDDL puts there
+        eqs = []
+        for (k, vs, ve), kv in zip(ents, keys):
+            i = next(j for j in combo if PPU_KEYS[names[j]] == kv)
+            v = VM.deref(E, E.nav(VM.deref(E, o.args[0]), [("field", i, ftys[i])]))
+            if isinstance(v, VLazy):
+                v = E.force_enum(v)
+            inner = VM.deref(E, v.fields[0])
+            while isinstance(inner, VStruct) and len(inner.fields) == 1:
+                inner = VM.deref(E, inner.fields[0])
+            t = toks[vs]
+            if ve - vs == 1 and t[0] == "uint" and isinstance(inner, VInt):
+                eqs.append(t[1] == inner.t)
+            elif ve - vs == 1 and t[0] == "item":
+                eqs.append(t[1] == E.as_u(VM.deref(E, v.fields[0])))
+        if eqs:
+            ob.vc("%s: the value under each key is that field's value" % what, o.pc, z3.And(eqs))
+    if ncombo < 60:
+        ob.fail("only %d of %d presence combinations could be executed" % (ncombo, len(combos)))
+    ob.cross_every = 10
+    ob.finish(agg)
